@@ -15,6 +15,7 @@ SPEC = r"""
 use core::num::NonZeroU32;
 pub assume_specification [u32::overflowing_sub](a: u32, b: u32) -> (r: (u32, bool)) ensures r.0 == a.wrapping_sub(b);
 pub assume_specification [u32::overflowing_add](a: u32, b: u32) -> (r: (u32, bool)) ensures r.0 == a.wrapping_add(b);
+pub assume_specification [u32::abs_diff](a: u32, b: u32) -> (r: u32) ensures r == (if a >= b { a - b } else { b - a });
 
 pub struct FullSyncMove<const BUFFER_SIZE: usize> {
     pub head: u32, pub tail: u32,
